@@ -1,5 +1,352 @@
-"""stub"""
+"""C16 — printed tables: every mode once, ordered and scaled (DESIGN.md §4 C16)."""
+from __future__ import annotations
+
+import ast
+
+from ..core import guards
+from ..core import pyfacts as pf
+from ..core.defuse import is_identity
+from ..core.effects import effects
+from ..core.match import call_arg, phi_alts, txt
 from ..core.source import AnchorMissing
-PROP="C16"
+from .common import DEC, builder_sites, ckey, enclosing, fn, is_empty_list, stmt_of, where
+
+PROP = "C16"
+FILES = [DEC]
+EXPLANATION = (
+    "C16.1 the `ascending` option reaches the sort that fixes the print order (provenance of the sort call); C16.2 finite "
+    "case evaluation for ascending ∈ {False, True}: sort direction and index of the reference element are (descending, 0) "
+    "or (ascending, −1), key = branching fraction only (stable sort keeps file order among ties); C16.3 contradictory or "
+    "out-of-range options raise before anything is printed; C16.4 one collected row per decay line and one printed line per "
+    "row; C16.5 both row formats use bf / norm with the same 7-significant-digit format; C16.6 display_photos_keyword and "
+    "print_model reach their effect; C16.7 printing writes no parser state; C16.8 a PDG mother name is mapped to its EvtGen name.")
+NOT_DECIDED = ["the printed digits", "'sums to 1' under normalisation as arithmetic"]
+F = "DecFileParser.print_decay_modes"
+
+
 def run(ctx, ss):
-    raise AnchorMissing("rules not built yet")
+    for r, f in (("C16.1", c16_1), ("C16.3", c16_3), ("C16.4", c16_4), ("C16.5", c16_5), ("C16.6", c16_6), ("C16.7", c16_7), ("C16.8", c16_8)):
+        ctx.guard(r, f, ss)
+
+
+def _sort_calls(ff):
+    out = []
+    for c in pf.calls_in(ff.node, nested=False):
+        if isinstance(c.func, ast.Name) and c.func.id == "sorted":
+            out.append(c)
+        elif isinstance(c.func, ast.Attribute) and c.func.attr == "sort":
+            out.append(c)
+    return out
+
+
+def _direction(c: ast.Call, flow, asc: bool):
+    """Direction of a sorted()/sort() call under ascending=asc: 'asc' / 'desc' / None; and whether the key is the bf."""
+    def atom(e):
+        if isinstance(e, ast.Name) and e.id == "ascending":
+            return asc
+        return None
+    kw = {k.arg: flow.expand(k.value) for k in c.keywords}
+    key = kw.get("key")
+    rev = kw.get("reverse")
+    rv = False if rev is None else guards.k3(rev, atom)
+    if rv is None:
+        return None, False
+    neg, on_bf = False, False
+    if key is None:
+        on_bf = False     # sorts by the whole tuple: ties are broken by the daughters string, not by file order
+        return ("desc" if rv else "asc"), on_bf
+    if isinstance(key, ast.Lambda):
+        body = guards.simplify(key.body, atom)
+        arg = key.args.args[0].arg if key.args.args else None
+        if isinstance(body, ast.UnaryOp) and isinstance(body.op, ast.USub):
+            neg, body = True, body.operand
+        on_bf = isinstance(body, ast.Subscript) and isinstance(body.value, ast.Name) and body.value.id == arg and txt(body.slice) == "0"
+    elif txt(key) in ("itemgetter(0)", "operator.itemgetter(0)"):
+        on_bf = True
+    else:
+        return None, False
+    d = "desc" if (rv != neg) else "asc"
+    return d, on_bf
+
+
+def c16_1(ctx, ss):
+    ff, flow = fn(ss, DEC, F)
+    sorts = _sort_calls(ff)
+    key = ckey(ff, None, "ascending-reaches-sort")
+    if not sorts:
+        ctx.violation("C16.1", key, where(ff, ff.node), "the rows are never sorted by branching fraction")
+        return
+    # the sort that fixes the print order: its result reaches the print loop
+    prints = [c for c in pf.calls_in(ff.node) if isinstance(c.func, ast.Name) and c.func.id == "print"]
+    if not prints:
+        raise AnchorMissing("print_decay_modes prints nothing")
+    ploops = enclosing(ff, prints[0], (ast.For,))
+    if not ploops:
+        raise AnchorMissing("print is not in a loop over the rows")
+    it = flow.expand(ploops[0].iter)
+    final = [c for c in sorts if txt(flow.expand(c)) == txt(it)] or sorts[-1:]
+    c = final[0]
+    mentions = any(isinstance(x, ast.Name) and x.id == "ascending" for k in c.keywords for x in ast.walk(flow.expand(k.value)))
+    if mentions:
+        ctx.holds("C16.1", key, where(ff, c), "the sort that fixes the print order depends on `ascending`", 2)
+    else:
+        ctx.violation("C16.1", key, where(ff, c), f"the option `ascending` never reaches the sort `{txt(c)[:80]}`: the requested direction is ignored")
+    # C16.2 both cases
+    # index of the reference element used for scaling
+    norm_defs = [d for d in flow.defs if d.name == "norm" and d.kind == "assign"]
+    ref = None
+    for d in norm_defs:
+        v = flow.expand(d.value)
+        if isinstance(v, ast.BinOp) and isinstance(v.op, ast.Div) and is_identity(v.right, "scale"):
+            ref = (d, v.left)
+    for asc in (False, True):
+        dirn, on_bf = _direction(c, flow, asc)
+        k2 = ckey(ff, None, f"case:ascending={asc}")
+        want = "asc" if asc else "desc"
+        if dirn is None:
+            ctx.undecided("C16.2", k2, where(ff, c), "sort direction not understood")
+            continue
+        if dirn != want:
+            ctx.violation("C16.2", k2 + " :: direction", where(ff, c), f"with ascending={asc} the rows are sorted {dirn}ending")
+        elif not on_bf:
+            ctx.violation("C16.2", k2 + " :: key", where(ff, c), "the sort key is not the branching fraction alone: ties are not kept in file order")
+        else:
+            ctx.holds("C16.2", k2 + " :: direction", where(ff, c), f"ascending={asc} ⇒ sorted {dirn}ending by branching fraction (stable)", 2)
+        if ref is None:
+            ctx.violation("C16.2", k2 + " :: reference", where(ff, ff.node), "no `norm = <largest bf> / scale` assignment found")
+            continue
+
+        def atom(e, asc=asc):
+            if isinstance(e, ast.Name) and e.id == "ascending":
+                return asc
+            return None
+        left = guards.simplify(ref[1], atom)
+        # ls[i][0] with i resolved
+        idx = None
+        if isinstance(left, ast.Subscript) and txt(left.slice) == "0" and isinstance(left.value, ast.Subscript):
+            idx = txt(guards.simplify(left.value.slice, atom))
+            base_ok = txt(left.value.value) in (txt(guards.simplify(flow.expand(c), atom)), txt(guards.simplify(it, atom)), txt(flow.expand(c)), txt(it))
+        elif isinstance(left, ast.Call) and txt(left.func) == "max":
+            idx, base_ok = "max", True
+        else:
+            base_ok = False
+        largest = (idx == "max") or (dirn == "desc" and idx == "0") or (dirn == "asc" and idx == "-1")
+        if base_ok and largest:
+            ctx.holds("C16.2", k2 + " :: reference", where(ff, ref[0].stmt), f"ascending={asc}: the scaling reference (index {idx}) is the largest branching fraction", 2)
+        else:
+            ctx.violation("C16.2", k2 + " :: reference", where(ff, ref[0].stmt),
+                          f"with ascending={asc} the rows are sorted {dirn}ending but the scaling reference is element [{idx}]: the SMALLEST value becomes `scale`")
+
+
+def c16_3(ctx, ss):
+    ff, flow = fn(ss, DEC, F)
+    cfg = flow.cfg
+    prints = [stmt_of(ff, c) for c in pf.calls_in(ff.node) if isinstance(c.func, ast.Name) and c.func.id == "print"]
+    raises = [n for n in pf.walk_no_nested(ff.node) if isinstance(n, ast.Raise)]
+
+    def reach(r, assume):
+        conds = [c for c in guards.path_conditions(ff.node, r) if c[0] == "if"]
+        return guards.reachable_under(conds, assume, flow)
+
+    def a_both(e):
+        t = txt(e)
+        if t == "scale is not None":
+            return True
+        if t == "scale is None":
+            return False
+        if isinstance(e, ast.Name) and e.id == "normalize":
+            return True
+        return None
+
+    def a_range(e):
+        t = txt(e)
+        if t == "scale is not None":
+            return True
+        if t == "scale is None":
+            return False
+        if isinstance(e, ast.Name) and e.id == "normalize":
+            return False
+        if t.replace(" ", "") in ("0.0<scale<=1.0", "0<scale<=1", "0<scale<=1.0", "0.0<scale<=1"):
+            return False       # assumption: scale outside ]0, 1]
+        return None
+    for tag, assume, msg in (("normalize+scale", a_both, "normalize and scale given together"), ("scale-range", a_range, "scale outside ]0, 1]")):
+        hit = [r for r in raises if reach(r, assume) is True]
+        k = ckey(ff, None, f"refuses:{tag}")
+        if hit and all(cfg.dominates(cfg.node_of(hit[0]), cfg.node_of(p)) or not cfg.reachable(cfg.node_of(p), cfg.node_of(hit[0])) for p in prints) \
+                and not any(cfg.reachable(cfg.node_of(p), cfg.node_of(hit[0])) for p in prints):
+            ctx.holds("C16.3", k, where(ff, hit[0]), f"{msg} ⇒ a raise is reached before anything is printed", 2)
+        else:
+            ctx.violation("C16.3", k, where(ff, ff.node), f"{msg} is not refused (no raise definitely reached before printing)")
+    # in-range scale must not raise
+    def a_ok(e):
+        t = txt(e)
+        if t == "scale is not None":
+            return True
+        if isinstance(e, ast.Name) and e.id == "normalize":
+            return False
+        if t.replace(" ", "") in ("0.0<scale<=1.0", "0<scale<=1", "0<scale<=1.0", "0.0<scale<=1"):
+            return True
+        return None
+    bad = [r for r in raises if reach(r, a_ok) is not False]
+    (ctx.violation if bad else ctx.holds)("C16.3", ckey(ff, None, "accepts:valid-scale"), where(ff, bad[0] if bad else ff.node),
+                                           "a valid scale in ]0, 1] can be refused" if bad else "a scale in ]0, 1] without normalize is accepted", 1)
+
+
+def c16_4(ctx, ss):
+    ff, flow = fn(ss, DEC, F)
+    prints = [c for c in pf.calls_in(ff.node) if isinstance(c.func, ast.Name) and c.func.id == "print"]
+    ploop = enclosing(ff, prints[0], (ast.For,))[0]
+    # rows collected once per decay line
+    rows = None
+    for d in flow.defs:
+        if d.kind == "assign" and is_empty_list(d.value) and builder_sites(ff, flow, d.name):
+            rows = d.name
+    if rows is None:
+        raise AnchorMissing("row list not found")
+    apps = [(st, args) for st, m, args in builder_sites(ff, flow, rows) if m == "append"]
+    k = ckey(ff, None, "rows")
+    if len(apps) != 1:
+        ctx.violation("C16.4", k, where(ff, ff.node), f"rows are appended at {len(apps)} places")
+        return
+    st, args = apps[0]
+    lps = enclosing(ff, st, (ast.For,))
+    it = txt(flow.expand(lps[0].iter)) if lps else ""
+    hdr = flow.cfg.node_of(lps[0]) if lps else None
+    okc = False
+    if lps and it.startswith("self._find_decay_modes("):
+        node = flow.cfg.node_of(st)
+        lo, hi, _ = flow.cfg.count_per_iteration(hdr, lambda n: n.id == node)
+        okc = (lo, hi) == (1, 1) and len(lps) == 1
+    (ctx.holds if okc else ctx.violation)("C16.4", k + " :: collect", where(ff, st),
+                                          "exactly one row is collected per decay line of the mother" if okc else f"rows are not collected exactly once per decay line (loop over `{it[:60]}`)")
+    # the row carries this line's bf / daughters / model / parameters
+    row = flow.expand(args[0])
+    dm = "self._decay_mode_details(__elem__(" + it + ")"
+    okr = isinstance(row, ast.Tuple) and len(row.elts) == 4 and txt(row.elts[0]).startswith(dm) and txt(row.elts[0]).endswith("['bf']") \
+        and "['fs']" in txt(row.elts[1]) and "' '.join(" in txt(row.elts[1]) and "sorted" not in txt(row.elts[1]) \
+        and txt(row.elts[2]).endswith("['model']") and "['model_params']" in txt(row.elts[3])
+    (ctx.holds if okr else ctx.violation)("C16.4", k + " :: payload", where(ff, st),
+                                          "row = (bf, daughters joined in order, model, parameters) of the same decay line" if okr else f"row is `{txt(row)[:160]}`")
+    # printing: one print per row, over all rows
+    hdr = flow.cfg.node_of(ploop)
+    pn = flow.cfg.node_of(stmt_of(ff, prints[0]))
+    lo, hi, _ = flow.cfg.count_per_iteration(hdr, lambda n: n.id == pn)
+    pit = flow.expand(ploop.iter)
+    src_ok = (isinstance(pit, ast.Call) and txt(pit.func) == "sorted" and pit.args and isinstance(pit.args[0], (ast.List, ast.Name, ast.Call))) or txt(ploop.iter) == rows
+    sliced = isinstance(ploop.iter, ast.Subscript) or isinstance(pit, ast.Subscript)
+    okp = (lo, hi) == (1, 1) and len(prints) == 1 and src_ok and not sliced
+    (ctx.holds if okp else ctx.violation)("C16.4", k + " :: print", where(ff, prints[0]),
+                                          "exactly one line is printed per collected row" if okp else "not exactly one printed line per collected row (sliced / conditional / repeated)")
+
+
+def c16_5(ctx, ss):
+    ff, flow = fn(ss, DEC, F)
+    prints = [c for c in pf.calls_in(ff.node) if isinstance(c.func, ast.Name) and c.func.id == "print"]
+    a = flow.expand(prints[0].args[0])
+    alts_ = []
+    for x in ast.walk(a):
+        if isinstance(x, ast.Call) and isinstance(x.func, ast.Name) and x.func.id == "__phi__":
+            alts_ = x.args
+            break
+    if not alts_:
+        alts_ = [a]
+    specs = []
+    for alt in alts_:
+        # .format(...) call or f-string
+        for x in ast.walk(alt):
+            if isinstance(x, ast.Call) and isinstance(x.func, ast.Attribute) and x.func.attr == "format" and isinstance(x.func.value, ast.Constant):
+                fmt = x.func.value.value
+                import string
+                fields = [t for t in string.Formatter().parse(fmt) if t[1] is not None]
+                first = fields[0]
+                specs.append((first[2], txt(x.args[0]) if x.args else "?"))
+                break
+            if isinstance(x, ast.JoinedStr):
+                fv = [p for p in x.values if isinstance(p, ast.FormattedValue)]
+                if fv:
+                    spec = "".join(p.value for p in fv[0].format_spec.values if isinstance(p, ast.Constant)) if fv[0].format_spec else ""
+                    specs.append((spec, txt(fv[0].value)))
+                    break
+    k = ckey(ff, None, "row-formats")
+    if len(specs) < 2:
+        raise AnchorMissing(f"row formats not understood ({len(specs)} found)")
+    prec = {s.split(".")[-1] if "." in s else "" for s, _ in specs}
+    vals = {v for _, v in specs}
+    if prec == {"7g"} and len(vals) == 1 and " / " in next(iter(vals)):
+        ctx.holds("C16.5", k, where(ff, prints[0]), f"both row formats print `{next(iter(vals))[:60]}` with 7 significant digits", len(specs))
+    else:
+        ctx.violation("C16.5", k, where(ff, prints[0]), f"the two row formats disagree or do not use .7g of bf/norm: {specs}")
+    # norm: 1.0 by default, sum under normalize, largest/scale under scale
+    nd = [d for d in flow.defs if d.name == "norm" and d.kind == "assign"]
+    texts = sorted(txt(flow.expand(d.value))[:40] for d in nd)
+    has_sum = any(t.startswith("sum(") for t in texts)
+    has_one = any(t in ("1.0", "1") for t in texts)
+    (ctx.holds if has_sum and has_one and len(nd) == 3 else ctx.violation)(
+        "C16.5", ckey(ff, None, "norm"), where(ff, nd[0].stmt if nd else ff.node),
+        "norm ∈ {1.0, Σ bf (normalize), largest/scale (scale)}" if has_sum and has_one and len(nd) == 3 else f"norm definitions are {texts}")
+    for d in nd:
+        v = flow.expand(d.value)
+        if txt(v).startswith("sum("):
+            conds = [(txt(e), pol) for kind, e, pol in guards.path_conditions(ff.node, d.stmt) if kind == "if"]
+            ok = conds == [("normalize", True)] and isinstance(v.args[0], ast.GeneratorExp) and not v.args[0].generators[0].ifs
+            (ctx.holds if ok else ctx.violation)("C16.5", ckey(ff, None, "norm:normalize"), where(ff, d.stmt),
+                                                  "normalize ⇒ norm = Σ of all branching fractions" if ok else f"normalisation sum is conditional / partial: {conds} {txt(v)[:60]}")
+
+
+def c16_6(ctx, ss):
+    ff, flow = fn(ss, DEC, F)
+    calls = [c for c in pf.calls_in(ff.node) if txt(c.func) == "self._decay_mode_details"]
+    k = ckey(ff, None, "display_photos_keyword")
+    ok = bool(calls) and all((a := call_arg(c, 1, "display_photos_keyword")) is not None and flow.is_identity_of(a, "display_photos_keyword") for c in calls)
+    (ctx.holds if ok else ctx.violation)("C16.6", k, where(ff, calls[0] if calls else ff.node),
+                                          "display_photos_keyword is forwarded to _decay_mode_details" if ok else "display_photos_keyword does not reach _decay_mode_details")
+    prints = [c for c in pf.calls_in(ff.node) if isinstance(c.func, ast.Name) and c.func.id == "print"]
+    a = prints[0].args[0]
+    # the `line` definitions: the one mentioning model must be under print_model
+    lines = [d for d in flow.defs if d.name == "line" and d.kind == "assign"]
+    okm = False
+    for d in lines:
+        conds = [(txt(e), pol) for kind, e, pol in guards.path_conditions(ff.node, d.stmt) if kind == "if"]
+        has_model = "model" in {x.id for x in ast.walk(d.value) if isinstance(x, ast.Name)}
+        if has_model and conds == [("print_model", True)]:
+            okm = True
+        if (not has_model) and conds != [("print_model", False)]:
+            okm = False
+            break
+    (ctx.holds if okm and len(lines) == 2 else ctx.violation)("C16.6", ckey(ff, None, "print_model"), where(ff, lines[0].stmt if lines else ff.node),
+                                                               "print_model selects the row with model and parameters" if okm and len(lines) == 2 else "print_model does not (only) select the row format with model and parameters")
+
+
+def c16_7(ctx, ss):
+    ef = effects(ss)
+    ff, flow = fn(ss, DEC, F)
+    ws = [w for w in ef.transitive_state_writes(ff.key) if not (w.root[0] == "state" and w.root[1] in ("self._grammar", "self._grammar_info"))]
+    mp = [p for p in ef.sum[ff.key].mutated_params if p != "self"]
+    k = ckey(ff, None, "no-write")
+    if ws or mp:
+        w = ws[0] if ws else None
+        ctx.violation("C16.7", k, where(ff, w.node if w else ff.node), f"printing changes stored values: {w.how + ' on ' + str(w.root) if w else 'mutates ' + str(mp)}")
+    else:
+        ctx.holds("C16.7", k, where(ff, ff.node), "print_decay_modes writes no parser state", len(ef.local[ff.key]) + 1)
+
+
+def c16_8(ctx, ss):
+    for q in (F, "DecFileParser.list_decay_modes"):
+        ff, flow = fn(ss, DEC, q)
+        calls = [c for c in pf.calls_in(ff.node) if txt(c.func) == "self._find_decay_modes"]
+        if not calls:
+            raise AnchorMissing(f"{q}: no _find_decay_modes call")
+        a = flow.expand(calls[0].args[0])
+        alts_ = phi_alts(a)
+        texts = sorted(txt(x) for x in alts_)
+        k = ckey(ff, None, "pdg-name")
+        if texts == ["PDG2EvtGenNameMap[mother]", "mother"]:
+            # the mapped alternative must be the one under pdg_name
+            d = [dd for dd in flow.defs if dd.name == "mother" and dd.kind == "assign"]
+            conds = [(txt(e), pol) for kind, e, pol in guards.path_conditions(ff.node, d[0].stmt) if kind == "if"] if d else []
+            if conds == [("pdg_name", True)]:
+                ctx.holds("C16.8", k, where(ff, calls[0]), "pdg_name ⇒ the mother is looked up as PDG2EvtGenNameMap[mother]", 2)
+            else:
+                ctx.violation("C16.8", k, where(ff, calls[0]), f"the PDG→EvtGen mapping of the mother is applied under {conds}")
+        else:
+            ctx.violation("C16.8", k, where(ff, calls[0]), f"the table is looked up for `{texts}`: a PDG-style mother name is not mapped (or always mapped)")
